@@ -118,6 +118,15 @@ func genProgram(seed int64, flavour string, drained bool, writers int, ntx int) 
 			return 800 + r.Intn(2400)
 		}
 	}
+	if flavour == "manykeys" {
+		// transactions with hundreds of keys (small values): one wal batch with hundreds of records
+		minKeys, maxKeys = 260, 330
+		nk = 400
+		profile = "plain"
+		p.Cfg.MemtableByteThreshold = []int{20000, 60000}[r.Intn(2)]
+		p.Cfg.DataBlockByteThreshold = 4096
+		p.Keys = gen.Keys(r, profile, nk*writers)
+	}
 	p.Txns = make([][]crashTxn, writers)
 	for w := 0; w < writers; w++ {
 		own := p.Keys[w*nk : (w+1)*nk] // disjoint key ownership: the per-key commit order is known
@@ -361,6 +370,15 @@ type verifyOut struct {
 	Ops   int               `json:"ops"`
 }
 
+// postStride: the recovery child commits to every postStride-th key (every second key, fewer for
+// programs with hundreds of keys); the other keys must keep what they read right after recovery.
+func postStride(p crashProgram) int {
+	if len(p.Keys) <= 100 {
+		return 2
+	}
+	return len(p.Keys) / 40
+}
+
 // crash-verify <dir> <side> <casefile> [plain|crashafter|second]
 //
 //	plain       Open, read, commit to every second key, Close, Open, read, Close
@@ -409,7 +427,7 @@ func crashVerifyMain(args []string) int {
 	// the recovered store accepts and retains further commits
 	// (every second key only: the others must keep the value they had right after recovery)
 	for i, k := range p.Keys {
-		if i%2 == 1 {
+		if i%postStride(p) != 0 {
 			continue
 		}
 		kk := k
@@ -584,7 +602,7 @@ func judgeRecovery(st ackState, v verifyOut, p crashProgram, atomic bool) []judg
 		}
 	}
 	for i, k := range p.Keys {
-		if i%2 == 0 {
+		if i%postStride(p) == 0 {
 			if v.Post[k] != "post-"+k {
 				out = append(out, judgement{"C03", "post-recovery-commit-not-retained", fmt.Sprintf("after recovery, a commit of %q=%q, Close and Open, the key reads %q", k, "post-"+k, v.Post[k])})
 				break
@@ -1054,6 +1072,7 @@ func genCrash(focus, tier string, seed int64) []core.Case {
 			add(2, spec{"multikey", 1, 1, 22, 8, 1})
 			add(1, spec{"bigtxn", 1, 1, 14, 8, 1})
 			add(1, spec{"deep", 1, 1, 36, 8, 1})
+			add(1, spec{"manykeys", 1, 1, 3, 8, 2})
 			add(1, spec{"multikey", 0, 1, 22, 8, 2})
 			add(1, spec{"multikey", 0, 2, 12, 8, 2})
 		} else {
@@ -1061,6 +1080,7 @@ func genCrash(focus, tier string, seed int64) []core.Case {
 			add(4, spec{"bigtxn", 1, 1, 30, 16, 1})
 			add(2, spec{"bigtxn", 0, 2, 16, 16, 1})
 			add(4, spec{"deep", 1, 1, 60, 16, 1})
+			add(3, spec{"manykeys", 1, 1, 8, 16, 1})
 			add(6, spec{"multikey", 0, 1, 40, 16, 1})
 			add(3, spec{"multikey", 0, 3, 20, 16, 1})
 		}
